@@ -172,7 +172,19 @@ func genC10(seed uint64, tier string) Scenario {
 		// mid-frame connections: they are released, nothing spins
 		return wrapMix("life", genServeCtx(g, "C10", tier))
 	}
-	return genC10Proto(seed, tier)
+	if sc := genC10Proto(seed, tier).(*ProtoScenario); g.IntN(12) == 0 {
+		// a handler that streams until it is told that the peer is gone, and a peer
+		// that goes away (close or reset) while it streams
+		cid := 9000
+		iface := sc.Service.Ifaces[0].Name
+		sc.Scripts[cid] = Script{Actions: []Action{{Op: "stream", N: 16 + g.IntN(48), Params: g.ParamsObject(g.IntN(2))}}}
+		cs := ClientSpec{Frames: []FrameSpec{{Cid: cid, Text: callFrame(iface+".M", withCid(cid, "{}"), true, false, false, g)}},
+			End: g.Pick("close", "abort-quiet"), HoldUs: 100 + g.IntN(1500)}
+		sc.Clients = append(sc.Clients, cs)
+		return sc
+	} else {
+		return sc
+	}
 }
 
 func genC10Proto(seed uint64, tier string) Scenario {
